@@ -227,6 +227,73 @@ def worker(wi, queue, resf):
     sh('rm -rf bin/*.%s.* bin/evidence.%s' % (sfx, sfx), VERIF)
 
 
+GROUPS = [
+    ('x/xibc/clients/', ['C07', 'C08', 'C09', 'C10', 'C13', 'C15', 'C18', 'C19', 'C02', 'C06', 'C14']),
+    ('x/xibc/core/client', ['C06', 'C07', 'C13', 'C15', 'C18', 'C19', 'C09', 'C10', 'C14']),
+    ('x/xibc/core/packet', ['C01', 'C02', 'C03', 'C04', 'C05', 'C06', 'C13', 'C19', 'C14']),
+    ('x/xibc/', ['C01', 'C02', 'C03', 'C04', 'C05', 'C06', 'C13', 'C18', 'C19', 'C15', 'C14']),
+    ('x/aggregate', ['C11', 'C12', 'C13', 'C15', 'C16', 'C03', 'C06', 'C14']),
+    ('x/rvesting', ['C20', 'C15', 'C13', 'C14']),
+    ('adapter', ['C17', 'C14']),
+    ('syscontracts', ['C17', 'C03', 'C04', 'C14']),
+    ('app/', ['C14', 'C16', 'C17', 'C20', 'C13', 'C15', 'C11']),
+]
+
+
+def wider(f):
+    for pre, ids in GROUPS:
+        if f.startswith(pre):
+            return ids
+    return []
+
+
+def recheck_worker(wi, queue, resf):
+    wt = '/tmp/mut_r%d' % wi
+    sh('git -C /repo worktree remove --force %s; git -C /repo worktree add -q --detach %s HEAD' % (wt, wt), '/')
+    while True:
+        with lock:
+            if not queue:
+                break
+            mu = queue.pop(0)
+        p = os.path.join(wt, mu['file'])
+        orig = open(p).read()
+        lines = orig.split('\n')
+        lines[mu['line']] = '' if mu['new'] is None else mu['new']
+        open(p, 'w').write('\n'.join(lines))
+        out = {'n': mu['n'], 'file': mu['file'], 'line': mu['line'], 'op': mu['op'], 'before': mu['before'], 'rechecked': {}, 'status': 'SURVIVOR-ALL'}
+        for cid in wider(mu['file']):
+            if cid in mu.get('checks_rc', {}):
+                continue
+            rc, o = sh('VERIF_REPO=%s ./check %s quick' % (wt, cid), VERIF, 2400)
+            out['rechecked'][cid] = rc
+            if rc == 1:
+                out['status'] = 'killed:' + cid
+                out['keys'] = sorted(set(re.findall(r'^  key=(\S+)', o, re.M)))[:4]
+                break
+        open(p, 'w').write(orig)
+        with lock:
+            resf.write(json.dumps(out) + '\n'); resf.flush()
+    sh('git -C /repo worktree remove --force %s' % wt, '/')
+    sfx = hashlib.md5((wt + '\n').encode()).hexdigest()[:8]
+    sh('rm -rf bin/*.%s.* bin/evidence.%s' % (sfx, sfx), VERIF)
+
+
+def recheck(workers):
+    done = set()
+    rp = os.path.join(OUT, 'recheck.jsonl')
+    if os.path.exists(rp):
+        done = {json.loads(l)['n'] for l in open(rp)}
+    queue = [json.loads(l) for l in open(os.path.join(OUT, 'results.jsonl'))]
+    queue = [m for m in queue if m['status'] == 'SURVIVOR' and m['n'] not in done]
+    print('survivors to recheck:', len(queue))
+    resf = open(rp, 'a')
+    ts = [threading.Thread(target=recheck_worker, args=(i, queue, resf)) for i in range(workers)]
+    for t in ts:
+        t.start()
+    for t in ts:
+        t.join()
+
+
 def main():
     ap = argparse.ArgumentParser()
     ap.add_argument('--workers', type=int, default=5)
@@ -235,8 +302,12 @@ def main():
     ap.add_argument('--files', default='')
     ap.add_argument('--seed', type=int, default=1)
     ap.add_argument('--list', action='store_true')
+    ap.add_argument('--recheck', action='store_true')
     a = ap.parse_args()
     os.makedirs(OUT, exist_ok=True)
+    if a.recheck:
+        recheck(a.workers)
+        return
     done = set()
     resp = os.path.join(OUT, 'results.jsonl')
     if os.path.exists(resp):
